@@ -126,6 +126,49 @@ class _RandProxy:
         return self._real.seed(*a, **k)
 
 
+class record_random:
+    """`with record_random() as rec:` – every call of a function of numpy's process-wide generator made through the
+    `numpy.random` module (`np.random.x(...)`, `from numpy import random as r; r.x(...)`, …) while the block runs is logged in
+    `rec.log` as (name, args, kwargs, result).  The functions are wrapped on the module itself, so the recording does not depend
+    on how the calling module imports numpy; only a name bound with `from numpy.random import x` before the block escapes it."""
+
+    SKIP = {"get_state", "set_state", "get_bit_generator", "set_bit_generator"}
+
+    def __init__(self):
+        self.log = []
+
+    def __enter__(self):
+        import numpy.random as R
+
+        self.R, self.saved = R, {}
+        for name in dir(R):
+            f = getattr(R, name)
+            if name.startswith("_") or name in self.SKIP or isinstance(f, type) or not callable(f):
+                continue
+            self.saved[name] = f
+            setattr(R, name, self._wrap(name, f))
+        return self
+
+    def _wrap(self, name, f):
+        log = self.log
+
+        def w(*a, **k):
+            if name == "seed":
+                log.append((name, a, k, None))
+                return f(*a, **k)
+            r = f(*a, **k)
+            log.append((name, (), {}, list(a[0])) if name == "shuffle" else (name, a, k, r))
+            return r
+
+        w.__name__ = name
+        return w
+
+    def __exit__(self, *exc):
+        for name, f in self.saved.items():
+            setattr(self.R, name, f)
+        return False
+
+
 class _NPProxy:
     def __init__(self, rp):
         self.random = rp
@@ -141,10 +184,9 @@ def instrumented_simulate(model_file, mapdir, chroms, region, popsize, seed):
     the random tapes."""
     import haptools.sim_genotype as sg
 
-    rp = _RandProxy(np.random)
     calls = []
     gens = []
-    orig_np, orig_gs, orig_sim = sg.np, sg.get_segment, sg._simulate
+    orig_gs, orig_sim = sg.get_segment, sg._simulate
 
     from . import common as C
 
@@ -182,11 +224,12 @@ def instrumented_simulate(model_file, mapdir, chroms, region, popsize, seed):
             )
         return out
 
-    sg.np, sg.get_segment, sg._simulate = _NPProxy(rp), rec_gs, rec_sim
+    sg.get_segment, sg._simulate = rec_gs, rec_sim
     try:
-        n, pop_dict, final = sg.simulate_gt(model_file, mapdir, chroms, region, popsize, _log, seed)
+        with record_random() as rp:
+            n, pop_dict, final = sg.simulate_gt(model_file, mapdir, chroms, region, popsize, _log, seed)
     finally:
-        sg.np, sg.get_segment, sg._simulate = orig_np, orig_gs, orig_sim
+        sg.get_segment, sg._simulate = orig_gs, orig_sim
     return dict(num_samples=n, pop_dict=pop_dict, final=final, gens=gens)
 
 
